@@ -20,6 +20,53 @@ TRANSFORMS = {
 }
 
 
+from .. import boolform as BF  # noqa: E402
+from ..prov import Prov  # noqa: E402
+
+EXPR = "swc_ecma_ast::Expr::"
+GATES = {
+    # transform entry point -> documented gate (all of it, and nothing else)
+    "to_dd_binary_expr": ("Bin", ["is:" + EXPR + "Bin", "enabled.plus", "op.add"]),
+    "to_dd_assign_expr": ("Assign", ["is:" + EXPR + "Assign", "enabled.plus", "op.addassign"]),
+    "to_dd_tpl_expr": ("Tpl", ["is:" + EXPR + "Tpl", "enabled.tpl", "!tpl.empty", "tpl.allnonlit"]),
+    "to_dd_call_expr": ("Call", ["is:" + EXPR + "Call", "callee.expr"]),
+    "to_dd_cond_expr": ("OptChain", ["is:" + EXPR + "OptChain"]),
+}
+
+
+def dispatch_atomize(fn, e):
+    e = hir.peel(e)
+    if hir.is_call(e):
+        nm = hir.callee_name(e) or e.get("method")
+        if nm == "plus_operator_is_enabled":
+            return BF.atom("enabled.plus")
+        if nm == "tpl_operator_is_enabled":
+            return BF.atom("enabled.tpl")
+        if nm == "is_expr" and T._place_ends(hir.call_args(e)[0], "callee"):
+            return BF.atom("callee.expr")
+        k = T._tpl_conj_kind(e)
+        if k is not None:
+            a = BF.atom("tpl.empty" if k[0] == "is_empty" else "tpl.allnonlit")
+            return BF.neg(a) if k[1] else a
+    if e.get("k") == "Binary" and e["op"] in ("Eq", "Ne"):
+        sides = [hir.peel(e["l"]), hir.peel(e["r"])]
+        ctor = [(s_.get("res", {}).get("ctor_path") or "") for s_ in sides if s_.get("k") == "Path"]
+        fld = [s_ for s_ in sides if s_.get("k") == "Field" and s_["field"] == "op"]
+        if fld and ctor:
+            a = None
+            if ctor[0].endswith("BinaryOp::Add"):
+                a = BF.atom("op.add")
+            elif ctor[0].endswith("AssignOp::AddAssign"):
+                a = BF.atom("op.addassign")
+            if a is not None:
+                return a if e["op"] == "Eq" else BF.neg(a)
+    return None
+
+
+def _gate_formula(names):
+    return [BF.neg(BF.atom(n[1:])) if n.startswith("!") else BF.atom(n) for n in names]
+
+
 _PROG = [None]
 
 
@@ -101,36 +148,46 @@ def rule_dispatch(check):
             continue
         for n in sites:
             found += 1
-            kinds = [classify_gate(f, c, variant) for c in f.conds_at(n)]
-            unknown = [k for k in kinds if k.startswith("unknown:") or k not in allowed]
-            has_variant = "variant" in kinds
+            g_in, n_in = inner.get(n["id"], (None, None))
+            conds = [c for c in f.conds_at(n)]
+            premises = BF.from_conds(f, conds, dispatch_atomize, prog)
+            if g_in is not None:
+                premises += BF.from_conds(g_in, g_in.conds_at(n_in), dispatch_atomize, prog)
+            gate_f = _gate_formula(GATES[name][1])
             key = "%s/%s" % (R, name)
-            if not has_variant:
+            sound = all(BF.entails(premises, g) for g in gate_f)
+            complete = all(BF.entails(gate_f, p_) for p_ in premises)
+            if not BF.entails(premises, gate_f[0]):
                 check.bad(R, key + "/arm", hir.loc(n), "%s is not called on a path where the expression is known to be Expr::%s" % (name, variant))
-            elif unknown:
-                check.bad(R, key + "/extra-gate", hir.loc(n), "%s is additionally gated by %s: enabled operations are skipped" % (name, "; ".join(u.replace("unknown:", "") for u in unknown)))
+            elif not sound:
+                missing_g = [BF.show(g) for g in gate_f if not BF.entails(premises, g)]
+                check.bad(R, key + "/gate", hir.loc(n), "%s is called although %s is not established on the path (conditions: %s)" % (name, " && ".join(missing_g), "; ".join(BF.show(p_) for p_ in premises)))
+            elif not complete:
+                extra = [BF.show(p_) for p_ in premises if not BF.entails(gate_f, p_)]
+                check.bad(R, key + "/extra-gate", hir.loc(n), "%s is additionally gated by %s: enabled operations are skipped" % (name, "; ".join(extra)))
             else:
-                check.ok(R, key, hir.loc(n), "called on Expr::%s under {%s}" % (variant, ", ".join(sorted(set(kinds) - {"closure", "other-arm"}))))
-            # the result must replace the expression when it is modified
+                check.ok(R, key, hir.loc(n), "called exactly when %s" % " && ".join(GATES[name][1]))
+            # the result must replace the expression when it is modified: result.expr flows into the
+            # visited node, through map_with_mut(|e| ..) or by assignment to the node
             applied = False
             par_fn, target = inner.get(n["id"], (f, n))
+            pvd = Prov(prog, opaque=set(GATES))
+            cands = []
             for m in hir.walk(par_fn.body):
                 if hir.is_call(m) and hir.callee_name(m) == "map_with_mut":
-                    cl = [a for a in hir.call_args(m)[1:] if hir.peel(a).get("k") == "Closure"]
-                    if not cl:
-                        continue
-                    body = hir.peel(cl[0])["body"]
-                    uses = [x for x in hir.walk(body) if hir.is_call(x) and hir.callee_name(x) in ("unwrap_or", "unwrap", "unwrap_or_else", "expect")]
-                    for u in uses:
-                        recv = hir.peel_transparent(hir.call_args(u)[0])
-                        if recv.get("k") == "Field" and recv["field"] == "expr":
-                            base = hir.local_of(recv["x"])
-                            if base is None:
-                                continue
-                            b = par_fn.bindings().get(base[0])
-                            init = b and b["origin"][0] == "let" and b["origin"][1]
-                            if init and any(x is target for x in hir.walk(init)):
-                                applied = True
+                    cl = [a_ for a_ in hir.call_args(m)[1:] if hir.peel(a_).get("k") == "Closure"]
+                    if cl:
+                        from ..prov import return_exprs as _rets
+
+                        cands += _rets(hir.peel(cl[0])["body"])
+                if m.get("k") == "Assign" and hir.peel(m["l"]).get("k") == "Path" and hir.local_of(m["l"]):
+                    bnd = par_fn.bindings().get(hir.local_of(m["l"])[0])
+                    if bnd and bnd["origin"][0] in ("param", "match"):
+                        cands.append(m["r"])
+            for v_ in cands:
+                for r_, p__ in pvd.origins(par_fn, v_):
+                    if r_[0] == "call" and r_[1].split("::")[-1] == name and len(r_) > 3 and r_[3] == target["id"] and any(str(x).split(".")[-1] == "expr" for x in p__):
+                        applied = True
             check.expect(applied, R, key + "/applied", hir.loc(n), "result.expr replaces the expression through map_with_mut", "the result of %s is never written back into the tree" % name)
     check.floor(R, "transform call sites", found, 5)
 
@@ -621,19 +678,18 @@ def rule_predicates(check):
     check.expect(ok, R, R + "/member_prop_is_prototype", hir.loc(g.rec), "member_prop_is_prototype <=> prop is the identifier `prototype`", "member_prop_is_prototype is not `prop.is_ident() && prop.sym == \"prototype\"`")
     from .. import gate
 
+    from .. import statusrules as S
+
     us = prog.fn("OperationTransformVisitor::update_status")
-    assigns = [n for n in us.nodes() if n.get("k") == "Assign" and (hir.place(n["l"]) or "").endswith(".transform_status.status")]
-    ok = len(assigns) == 1
-    if ok:
-        a = assigns[0]
-        atoms = gate.atoms_at(us, a)
-        rhs = hir.local_of(a["r"])
-        from_param = bool(rhs) and us.bindings()[rhs[0]]["origin"][0] == "param"
-        not_nm = gate.has_eq_gate(atoms, "status", "Status::NotModified", False)
-        not_cancelled = gate.has_eq_gate(atoms, ".transform_status.status", "Status::Cancelled", False)
-        extra = [x for x in atoms if x[0] not in ("eq",)]
-        ok = from_param and not_nm and not_cancelled and not extra and len([x for x in atoms if x[0] == "eq"]) == 2
-    check.expect(ok, R, R + "/update_status", hir.loc(us.rec), "file status := result status whenever it is not NotModified (and not cancelled)", "update_status does not record every modified result: instrumented files can be reported (and handed back) as not modified")
+    try:
+        tab = S.status_table(prog, us)
+    except AnchorMissing as ex:
+        check.bad(R, R + "/update_status", hir.loc(us.rec), "what update_status records depends on more than the current and the reported status (%s): instrumented files can be reported (and handed back) as not modified" % str(ex).split(": ")[-1])
+        tab = None
+    want = S.expected_status_table()
+    wrong = [] if tab is None else ["(%s, %s) -> %s instead of %s" % (c_, n_, tab[(c_, n_)][0], want[(c_, n_)][0]) for (c_, n_) in sorted(tab) if tab[(c_, n_)][0] != want[(c_, n_)][0]]
+    if tab is not None:
+        check.expect(not wrong, R, R + "/update_status", hir.loc(us.rec), "file status := result status whenever it is not NotModified (and the rewrite is not cancelled), on all nine (current, new) pairs", "update_status does not record every modified result / keeps no cancelled state: (current, new) %s" % "; ".join(wrong))
     cv = prog.fn("BlockTransformVisitor::cancel_visit")
     sets = [n for n in cv.nodes() if n.get("k") == "Assign" and (hir.place(n["l"]) or "").endswith(".status") and (hir.peel(n["r"]).get("res", {}).get("ctor_path") or "").endswith("Status::Cancelled") and not cv.conds_at(n)]
     check.expect(len(sets) == 1, R, R + "/cancel_visit", hir.loc(cv.rec), "cancel_visit sets Cancelled unconditionally", "cancel_visit does not set the status to Cancelled")
